@@ -22,8 +22,7 @@ ASSUMPTIONS = ["R2 is an executable rendering of docs/source/derivation.rst in m
                "R2 choice (i): a capacity-0 atom met at state > 0 is dropped and ends that derivation instance",
                "R2 choice (ii): a branch's Q+1 is a budget on a shared symbol stream (nested consumption is charged to the parent)",
                "R2 choice (iii): ring targets are counted over all atoms derived so far, across fragments",
-               "the output text is not compared, only the molecule R1 reads from it",
-               "symbols containing 'eps' other than [epsilon] are not generated (the implementation treats them as [epsilon])"]
+               "the output text is not compared, only the molecule R1 reads from it"]
 SELFTESTS = [refsmiles.selftest, R.selftest]
 
 ALPHABETS = {
